@@ -1275,7 +1275,8 @@ static int write_triple_quoted(void *context, const UChar *text, int32_t line1_l
     nchars = u_fprintf(CONTEXT_UFILE(context), "%c%c%c%S%c%c%c", delimiter, delimiter, delimiter,
             text, delimiter, delimiter, delimiter);
 
-    SET_LAST_COLUMN(context, last_column + last_line_length + 3);
+    /* for a single-line value the opening delimiter is on the last (only) line, too */
+    SET_LAST_COLUMN(context, last_column + (text[line1_length - 3] ? 0 : 3) + last_line_length + 3);
 
     /* line1_length already accounts for the opening delimiter */
     return (nchars >= (line1_length + 3)) ? CIF_OK : CIF_ERROR;
